@@ -87,7 +87,8 @@ struct fx {
 	struct evhttp *http; int http_port; struct evhttp_bound_socket *hbound;
 	struct evhttp_connection *hc;
 	struct evhttp_request *req, *srv_req;
-	int srv_mode;
+	int srv_mode, sigctl;
+	struct event *ev_sigctl;
 	struct evwatch *wp, *wc, *guard;
 	long iters;
 	int held0;
@@ -163,6 +164,19 @@ static void ev_cb(evutil_socket_t fd, short what, void *arg)
 	struct fx *f = arg; char tmp[4096];
 	if ((what & EV_READ) && fd >= 0 && fd == f->sp[0]) (void)__real_recv(fd, tmp, sizeof(tmp), MSG_DONTWAIT);
 	if (++f->ncb > 20000 && f->base) { n_runaway++; event_base_loopbreak(f->base); } /* level-triggered event that cannot be drained */
+}
+/* a signal callback (several deliveries pending) that controls the loop or releases itself: the closure that
+ * runs it walks ev_ncalls with the base lock dropped around each call and has early exits of its own */
+static void sig_ctl_cb(evutil_socket_t fd, short what, void *arg)
+{
+	struct fx *f = arg; (void)fd; (void)what; f->ncb++;
+	switch (f->sigctl) {
+	case 0: event_base_loopbreak(f->base); break;
+	case 1: event_base_loopcontinue(f->base); break;
+	case 2: event_base_loopexit(f->base, NULL); break;
+	case 3: if (f->ev_sigctl) event_del(f->ev_sigctl); break;
+	default: break;
+	}
 }
 static void ev_fin_cb(struct event *ev, void *arg) { struct fx *f = arg; (void)ev; f->ncb++; }
 static void ebuf_cb(struct evbuffer *b, const struct evbuffer_cb_info *info, void *arg) { struct fx *f = arg; (void)b; (void)info; f->ncb++; }
@@ -576,6 +590,9 @@ X(ev_add_timer, "event_add.timer", N_EV, struct timeval t; C(event_add(f->ev_use
 	C(event_remove_timer(f->ev_tmr)); C(event_remove_timer(f->ev_user))) \
 X(ev_add_signal, "event_add.signal", N_EV, struct timeval t; struct event *e; C(event_add(f->ev_sig, pick_tv(r, &t))); \
 	C(e = event_new(f->base, SIGUSR2, EV_SIGNAL, ev_cb, f)); if (e) { C(event_add(e, NULL)); C(event_del(e)); C(event_free(e)); } C(event_del(f->ev_sig))) \
+X(ev_signal_loopctl, "signal callback: loopbreak/continue/exit/del during delivery", N_EV, struct event *e; f->sigctl = (int)vh_below(r, 5); \
+	C(e = event_new(f->base, SIGUSR2, EV_SIGNAL|EV_PERSIST, sig_ctl_cb, f)); if (e) { f->ev_sigctl = e; C(event_add(e, NULL)); \
+	C(event_active(e, EV_SIGNAL, (short)(1 + vh_below(r, 4)))); step(f, 2); C(event_del(e)); C(event_free(e)); f->ev_sigctl = NULL; }) \
 X(ev_add_finalizing, "event_add.finalizing", N_EV, C(event_finalize(0, f->ev_fin, ev_fin_cb)); C(event_add(f->ev_fin, NULL)); C(event_del(f->ev_fin)); \
 	C(event_active(f->ev_fin, EV_READ, 1)); step(f, 1)) \
 X(ev_del, "event_del", N_EV, C(event_del(f->ev_io)); C(event_del(f->ev_io)); C(event_del_block(f->ev_tmr)); C(event_del_noblock(f->ev_sig)); \
